@@ -107,7 +107,9 @@ pub fn generate(seed: u64, tier: Tier) -> History {
     let with_dirs = swarm.chance(1, 3);
     let refs_ext = format!("{}{}", if swarm.chance(1, 4) { ".md" } else { "" }, *swarm.pick(&["", "", "", "|helix", "|models", "|helix+models"]));
     let marathon = swarm.chance(1, if tier == Tier::Thorough { 40 } else { 300 });
-    let n_ops = if marathon && !big_library { swarm.range(120, 320) } else if big_library { swarm.range(1, 5) } else { swarm.range(1, max_ops) };
+    // a long session on a big note: tens of thousands of removed nodes and line slots
+    let heavy = !big_library && !empty_start && swarm.chance(1, if tier == Tier::Thorough { 300 } else { 1200 });
+    let n_ops = if heavy { swarm.range(350, 420) } else if marathon && !big_library { swarm.range(120, 320) } else if big_library { swarm.range(1, 5) } else { swarm.range(1, max_ops) };
     let poison_pct = *swarm.pick(&[0u32, 0, 0, 4, 8]);
     let restart_pct = *swarm.pick(&[0u32, 0, 5, 10, 25]);
     let save_pct = *swarm.pick(&[0u32, 10, 30]);
@@ -122,10 +124,25 @@ pub fn generate(seed: u64, tier: Tier) -> History {
     }
     let mut probes_init: Vec<String> = vec![];
     let mut all_keys = gen::key_pool(n_notes + n_future, with_dirs);
-    if all_keys.len() >= 2 && swarm.chance(1, 12) {
-        // two notes whose names differ only in letter case
-        all_keys[0] = "Todo".into();
-        all_keys[1] = "todo".into();
+    if all_keys.len() >= 2 && swarm.chance(1, 8) {
+        // pairs of names that a sloppy key derivation would merge: letter case, dotted stems
+        match swarm.below(3) {
+            0 => {
+                all_keys[0] = "Todo".into();
+                all_keys[1] = "todo".into();
+            }
+            1 => {
+                all_keys[0] = "2024.01.15".into();
+                all_keys[1] = "2024.01.16".into();
+            }
+            _ => {
+                all_keys[0] = "v1.2".into();
+                all_keys[1] = "v1".into();
+            }
+        }
+    } else if !all_keys.is_empty() && swarm.chance(1, 20) {
+        // a note whose file is called draft.md.md (its key, on the unchanged tree, is `draft`)
+        all_keys[0] = "draft.md".into();
     }
     let lib_keys: Vec<String> = all_keys[..n_notes].to_vec();
     let mut targets = all_keys.clone();
@@ -141,6 +158,20 @@ pub fn generate(seed: u64, tier: Tier) -> History {
         let d = Gen { rng: &mut work, cfg: &cfg }.doc();
         library.insert(k.clone(), gen::render(k, &d));
         docs.insert(k.clone(), d);
+    }
+    if heavy {
+        if let Some(k) = lib_keys.first() {
+            let mut blocks = vec![gen::Block::Heading { level: 1, inl: vec![gen::Inline::Word("big".into())], setext: false }];
+            let mut g = Gen { rng: &mut work, cfg: &cfg };
+            blocks.push(g.table());
+            for i in 0..g.rng.range(120, 220) {
+                blocks.push(if i % 17 == 5 { g.block_ref() } else { gen::Block::Para(vec![g.inlines(20)]) });
+            }
+            let d = Doc { front: None, blocks, trailing_newline: true, bom: false };
+            library.insert(k.clone(), gen::render(k, &d));
+            docs.insert(k.clone(), d);
+        }
+        probes_init.push("heavy-session".to_string());
     }
     let mut ops = vec![];
     let mut versions: BTreeMap<String, i32> = BTreeMap::new();
@@ -196,7 +227,11 @@ pub fn generate(seed: u64, tier: Tier) -> History {
         let (key, is_new) = if !future.is_empty() && (existing.is_empty() || work.chance(1, 6)) {
             (work.pick(&future).clone(), true)
         } else if !existing.is_empty() {
-            (work.pick(&existing).clone(), false)
+            if heavy && work.chance(4, 5) {
+                (existing[0].clone(), false)
+            } else {
+                (work.pick(&existing).clone(), false)
+            }
         } else {
             break;
         };
@@ -520,6 +555,9 @@ pub fn run(h: &History, with_patches: bool) -> Outcome {
                         *out.probes.entry(format!("{}-produced-{}-edits", class, edits.len().min(3))).or_default() += 1;
                     }
                     for (k, t) in edits {
+                        // the server names notes by its own keys; the editor's file `draft.md.md` is the key `draft` there:
+                        // file the edit under the editor's name for that key
+                        let k = model.keys().find(|m| Key::from_file_name(m).to_string() == k).cloned().unwrap_or(k);
                         let r = guarded(|| canon::did_change(&mut inc, &k, &t));
                         model.insert(k.clone(), t.clone());
                         if r.is_err() {
